@@ -118,14 +118,11 @@ Definition remove_if_equals (d : disk) (n : bytes) (old : option bytes) : disk *
   else if post_collide n d then (d, RExc)
   else ({| loose := rdel n (loose d); packed := rdel n (packed d) |}, RTrue).
 
+(* (the old target is looked up for the reflog only; a loop there does not stop the write) *)
 Definition set_symbolic_ref (d : disk) (n t : bytes) : disk * res :=
   if pre_collide n d then (d, RExc)
-  else match follow (dread d) n with
-       | None => (d, RExc)
-       | Some _ =>
-         if post_collide n d then (d, RExc)
-         else ({| loose := rset n (Sym t) (loose d); packed := packed d |}, RTrue)
-       end.
+  else if post_collide n d then (d, RExc)
+  else ({| loose := rset n (Sym t) (loose d); packed := packed d |}, RTrue).
 
 (* pack_refs(all): every selected ref whose visible value is a sha moves to
    packed-refs; symbolic refs and HEAD stay where they are *)
